@@ -17,14 +17,16 @@ use std::collections::{BTreeMap, BTreeSet};
 
 pub fn run_case(ctx: &Ctx, case: u64, ev: &mut Ev) {
     let mut rng = Rng::derive(ctx.seed, "C09", case);
+    rng.big = ctx.tier == crate::Tier::Thorough && rng.chance(0.2);
     let rg = match rng.below(10) {
         0..=4 => Regime::Int,
         5..=7 => Regime::Dyadic,
         _ => Regime::Short,
     };
-    let n = 1 + rng.below(3);
-    let mut cfg = TreeCfg::basic(2, n, 1 + rng.below(2), rg);
-    cfg.max_depth = 1 + rng.below(5);
+    let n = 1 + rng.below(if rng.big { 4 } else { 3 });
+    let od = 1 + rng.below(2);
+    let mut cfg = TreeCfg::basic(2, n, od, rg);
+    cfg.max_depth = 1 + rng.below(if rng.big { 7 } else { 5 });
     cfg.p_stop = 0.2;
     cfg.p_missing = if rng.chance(0.5) { 0.25 } else { 0.0 };
     cfg.p_contra = if rng.chance(0.3) { 0.3 } else { 0.0 };
@@ -226,6 +228,12 @@ pub fn run_case(ctx: &Ctx, case: u64, ev: &mut Ev) {
         }
         match classify_cell(&sys) {
             Ok((Band::Thick, Some(x), _)) => {
+                // "strictly inside" is meant literally here: a reported row 0.x <= 0 (the closed
+                // negation of a constant predicate) has no strictly interior point at all
+                if !sys.slacks(&qv(&x)).iter().all(|sl| sl.is_pos()) {
+                    ev.inc("regions_without_interior");
+                    continue;
+                }
                 let (_, route) = s.eval_from(s.root, &qv(&x));
                 let (end, _) = s.eval_from(s.root, &qv(&x));
                 let through = route.iter().any(|r| r.0 == *idx) || matches!(&end, TEv::Val(e, _) if e == idx);
